@@ -18,7 +18,7 @@ func init() {
 }
 
 func classItems() []string {
-	return []string{"a", "Z", "_", "0", "é", "a-c", "X-b", "@-Z", "0-é", `\pL`, `\p{Nd}`, `\p{Latin}`, "]", `\p{Lu}`, "K", "Ā-Ȁ", "!-ÿ", "l-K", "j-İ"}
+	return []string{"a", "Z", "_", "0", "é", "a-c", "X-b", "@-Z", "0-é", `\pL`, `\p{Nd}`, `\p{Latin}`, "]", `\p{Lu}`, "K", "Ā-Ȁ", "!-ÿ", "l-K", "j-İ", "!-_", "×-÷"}
 }
 
 func runC15(c *ShardCtx) {
